@@ -436,6 +436,11 @@ Proof.
   - unfold add_computed_value, bind in H. inv_guard H. injection H as <-. apply (wf_same m); auto.
   - unfold finalize, bind in H. inv_guard H. injection H as <-. apply (wf_same m); auto.
   - injection H as <-. apply (wf_same m); auto.
+  - unfold add_flow_dyn, bind in H.
+    assert (exists fs', add_flow m fs' = Ok m') as [fs' H'].
+    { destruct (fs_kind fs); try (destruct (validate_flowparam v); [|discriminate]); eexists; exact H. }
+    clear H. rename H' into H. destruct (add_flow_new _ _ _ H) as [new [-> Hn]]. apply wf_add_flows; assumption.
+  - unfold add_universal_death_dyn, bind in H. destruct (validate_flowparam v) as [param|]; [|discriminate]. destruct (add_universal_death_new _ _ _ _ H) as [new [-> Hn]]. apply wf_add_flows; assumption.
 Qed.
 
 Lemma wf_apply_ops ops : forall m k m', wf m -> apply_ops m ops k = (m', None) -> wf m'.
